@@ -5,7 +5,7 @@ import core, runner
 from astlib import *
 from cases import *
 
-OPS = ["not", "and", "or", "implies", "next", "prev", "once", "hist", "ev", "alw", "onceT", "histT", "evT", "alwT", "rise", "fall"]
+OPS = ["not", "and", "or", "implies", "iff", "xor", "next", "prev", "once", "hist", "ev", "alw", "onceT", "histT", "evT", "alwT", "rise", "fall"]
 IVS = [(0, 0), (0, 1), (1, 2), (0, 2), (1, 1), (2, 3)]
 
 
@@ -22,7 +22,7 @@ def main():
     ax, ay, bx = pred("ge", var("x"), const(2)), pred("lt", var("y"), const(2)), pred("le", var("x"), const(2))
     UN = ["not", "next", "prev", "once", "hist", "ev", "alw", "rise", "fall", "sprev", "snext"]
     TM = ["evT", "alwT", "onceT", "histT"]
-    BB = ["and", "or", "implies"]
+    BB = ["and", "or", "implies", "iff", "xor"]
     D1 = [ax, ay, bx] + [un(o, f) for o in UN for f in (ax, ay)] + [un(o, f, a, b) for o in TM for f in (ax, ay) for a, b in ((0, 1), (1, 2), (1, 1), (0, 2))] + \
          [bi(o, ax, ay) for o in BB] + [bi(o, ax, bx) for o in BB]
     FU = D1 + [un(o, f) for o in UN for f in D1] + [un(o, f, a, b) for o in TM for f in D1 for a, b in ((0, 1), (1, 2))] + \
@@ -51,7 +51,8 @@ def main():
             rep.mc_violation("ExplainMC4", r)
     devs = {}
     for dev, fs in (("impliesPolarity", [bi("implies", un("alw", ax), ay), bi("implies", un("evT", ax, 0, 1), ay)]), ("riseNoPrev", [un("next", un("rise", bx)), un("fall", ax)]),
-                    ("firstInterval", D3), ("predicateKeepsPolarity", DP[:-len(NG)]), ("negPassesPolarity", NG)):
+                    ("firstInterval", D3), ("predicateKeepsPolarity", DP[:-len(NG)]), ("negPassesPolarity", NG),
+                    ("iffKeepsPolarity", [bi("iff", bi("and", ax, bx), ay), bi("xor", bi("or", ax, ay), bx), un("not", bi("xor", un("alw", ax), ay))])):
         rr = explmc.run("C20_explain_dev_" + dev, fs, maxn=3, dev=[dev], workers=4, expect_violation=True)
         devs[dev] = rr["violated"]
     rep.extra["deviation_on_counterexamples"] = devs
@@ -123,6 +124,21 @@ def main():
             if rng.random() < 0.5:
                 phi = rng.choice([un("not", phi), un("alw", phi), un("evT", phi, 0, 1), bi("or", phi, atom()), un("neg", phi)])
             N = rng.choice([2, 3, 4])
+        zig = False
+        if rng.random() < 0.1:
+            # an operator that is explained at several positions over an operand with several separate violating (satisfying)
+            # segments: every segment matters (seed C20-h: only the first segment of an unbounded always was reported)
+            v0 = rng.choice(vs)
+            a0 = pred(rng.choice(["ge", "gt", "le", "lt"]), var(v0), const(thr[v0]))
+            inner = rng.choice([lambda: un(rng.choice(["alw", "hist", "ev", "once"]), a0),
+                                lambda: un(rng.choice(["alwT", "histT", "evT", "onceT"]), a0, *rng.choice([(0, 1), (1, 2), (0, 2)]))])()
+            outer = rng.choice(["ev", "once", "alw", "hist", "evT", "alwT", "or", "and", "next"])
+            phi = un(outer, inner, 0, rng.choice([2, 3, 4])) if outer in UN_TIMED else \
+                  bi(outer, inner, un("next", un("next", inner))) if outer in ("or", "and") else un(outer, inner)
+            if rng.random() < 0.4:
+                phi = un("not", phi)
+            N = rng.choice([5, 6])
+            zig = True
         vs_used = vars_of(phi)
         if len(vs_used) * N > 6:
             N = 3 if len(vs_used) > 1 else N
@@ -132,6 +148,11 @@ def main():
         for v in vs_used:
             side = rng.choice([None, None, -1, 1])
             w[v] = [thr[v] + (rng.choice([-1, 0, 1]) if side is None or rng.random() < 0.15 else side) for _ in range(N)]
+            if zig:      # alternating runs around the threshold
+                s0 = rng.choice([-1, 1]); runs = []
+                while len(runs) < N:
+                    runs += [s0] * rng.choice([1, 1, 2]); s0 = -s0
+                w[v] = [thr[v] + r_ * rng.choice([1, 1, 2]) for r_ in runs[:N]]
         o = dt_obj(phi, 1, vs_used, factory="StlDiscreteTimeOfflineSpecification")
         if (ops_of(phi) & TIMED) and rng.random() < 0.25:
             # bounds written with units, a sampling period other than one default unit: the explainer must read the bounds in samples
@@ -141,6 +162,16 @@ def main():
             written, _st = _c08.write_ast(rng, phi, pnum * 10 ** _c08.E[punit], default)
             o = dt_obj(phi, 1, vs_used, factory="StlDiscreteTimeOfflineSpecification", text="out = " + to_text(written, 1), written=written,
                        units={"def": default, "pnum": pnum, "pden": 1, "punit": punit}, unit=default, set_period=[pnum, punit, 0.1])
+        if "written" not in o and rng.random() < 0.2:
+            # the same specification with named sub-formulas: the verdict is that of the last assertion; a helper assertion that is
+            # violated at time 0 while the specification is satisfied must not make explain() report anything
+            from modular import decompose
+            subs, main_, _cd, _nm = decompose(rng, phi, 1, consts=False)
+            if subs:
+                if rng.random() < 0.5:
+                    o["subs"] = [s_ + ";" for s_ in subs]; o["text"] = "out = " + main_
+                else:
+                    o["text"] = " ; ".join(subs + ["out = " + main_])
         evs = [ev_parse(), ev_evaluate(range(N), w), {"o": 1, "a": "explain"}]
         if rng.random() < 0.25:
             # the same object evaluates and explains a second (and third) trace: nothing of the earlier report may survive
